@@ -1142,6 +1142,29 @@ fn cmd_extract(args: &BTreeMap<String, String>) {
     print!("{}", &src.text[src.start(it)..src.end(it)]);
 }
 
+fn cmd_extract_closure(args: &BTreeMap<String, String>) {
+    let file = PathBuf::from(args.get("file").unwrap_or_else(|| die("--file")));
+    let name = args.get("fn").unwrap_or_else(|| die("--fn"));
+    let src = Src::new(fs::read_to_string(&file).unwrap_or_else(|e| die(&format!("{:?}: {}", file, e))));
+    let f = syn::parse_file(&src.text).unwrap_or_else(|e| die(&format!("parse: {}", e)));
+    for it in &f.items {
+        if let syn::Item::Fn(func) = it {
+            if func.sig.ident == name.as_str() {
+                let mut shape = BodyShape::default();
+                shape.visit_block(&func.block);
+                match shape.closures.first() {
+                    Some(c) => {
+                        print!("{}", &src.text[src.start(*c)..src.end(*c)]);
+                        return;
+                    }
+                    None => die("no closure in fn"),
+                }
+            }
+        }
+    }
+    die("fn not found")
+}
+
 fn cmd_items(args: &BTreeMap<String, String>) {
     let file = PathBuf::from(args.get("file").unwrap_or_else(|| die("--file")));
     let src = Src::new(fs::read_to_string(&file).unwrap());
@@ -1177,6 +1200,7 @@ fn main() {
     match argv[1].as_str() {
         "assemble" => cmd_assemble(&args),
         "extract" => cmd_extract(&args),
+        "extract-closure" => cmd_extract_closure(&args),
         "items" => cmd_items(&args),
         _ => die("unknown command"),
     }
